@@ -120,15 +120,15 @@ example : (runCalls [true, false, false, true] (build 8 (.each .ident (.src (.se
 /-- **peek_ops_refine.** Any sequence of `next`, `next_back`, `peek`, `peek_back` on
 `p.peekable()` over a bidirectional pipeline answers like the ideal double-ended sequence `den p`,
 where `peek` / `peek_back` look at the two ends without removing anything (the cached element stays
-part of the sequence, also when it is the only one left and is reached from the other end). Over a
-forward-only pipeline the back-end operations are excluded: there the code reorders the sequence
-(finding F-C13-4). -/
+part of the sequence, also when it is the only one left and is reached from the other end). For
+forward-only pipelines see `peek_ops_forward_only`. -/
 theorem peek_ops_refine (fuel : Nat) (p : Pipe) (xs : List Val)
     (hreg : p.regular = true) (herr : p.err = none) (hden : den p = some xs) (hfit : p.fits fuel)
     (hbi : p.bidir = true) (ops : List PeekOp) :
     (runCase fuel p (.peekOps ops)).1 = .ok (.list (specPeekOps ops xs)) := by
   have hd := (pipe_sem fuel p xs hreg herr hden hfit).2 hbi
-  have h := runPeekOps_spec (build fuel p).c endMarker ops ⟨(build fuel p).s, none, none⟩ xs hd
+  have hb : (build fuel p).c.bidir = true := by rw [build_bidir]; exact hbi
+  have h := runPeekOps_spec (build fuel p).c endMarker hb ops ⟨(build fuel p).s, none, none⟩ xs hd
   simp only [peekDen, Option.toList, List.nil_append, List.append_nil] at h
   simp only [runCase, herr]
   show Except.ok (Val.list (runPeekOps (build fuel p).c endMarker ops ⟨(build fuel p).s, none, none⟩).1) = _
@@ -138,13 +138,45 @@ example : (runCase 8 (.src (.seq [Val.int 1, Val.int 2])) (.peekOps [.peek, .pee
     = .ok (.list [Val.int 1, Val.int 2, Val.int 1, Val.int 2, Val.int 2, endMarker]) :=
   peek_ops_refine 8 (.src (.seq [Val.int 1, Val.int 2])) [Val.int 1, Val.int 2] rfl rfl rfl trivial rfl _
 
-/-- Over a forward-only input the back-end operations of `Peekable` are *not* order-preserving as
-the code stands (the model mirrors it): on a generator yielding `a, b, c` the sequence `peek,
-peek_back, next, next, next` answers `a, a, b, c, a` — the peeked `a` migrates to the back cache and
-is yielded last (finding F-C13-4; `peek_ops_refine` excludes this by `p.bidir`). -/
-theorem peek_back_forward_only_reorders (a b c : Val) :
-    (runPeekOps (genCo 0 [a, b, c]) endMarker [.peek, .peekBack, .next, .next, .next]
-      ⟨(0, false), none, none⟩).1 = [a, a, b, c, a] := rfl
+/-- **peek_ops_forward_only.** Over a forward-only pipeline (generator, `keep`, `take`, `zip`, …) any
+sequence of `next`, `next_back`, `peek`, `peek_back` on `p.peekable()` answers like the ideal
+forward-only sequence `den p`: `next` takes the head, `peek` looks at it, and `next_back` /
+`peek_back` answer null and change nothing — in particular a peeked element is never handed out from
+the back. (Code as of /repo commit 582d021; before it the peeked element migrated to the back cache
+and was yielded last — finding F-C13-4, fixed.) -/
+theorem peek_ops_forward_only (fuel : Nat) (p : Pipe) (xs : List Val)
+    (hreg : p.regular = true) (herr : p.err = none) (hden : den p = some xs) (hfit : p.fits fuel)
+    (hbi : p.bidir = false) (ops : List PeekOp) :
+    (runCase fuel p (.peekOps ops)).1 = .ok (.list (specPeekOpsF ops xs)) := by
+  have hf := (pipe_sem fuel p xs hreg herr hden hfit).1
+  have hb : (build fuel p).c.bidir = false := by rw [build_bidir]; exact hbi
+  have h := runPeekOps_fwd_only (build fuel p).c endMarker hb ops ⟨(build fuel p).s, none, none⟩ xs rfl hf
+  simp only [Option.toList, List.nil_append] at h
+  simp only [runCase, herr]
+  show Except.ok (Val.list (runPeekOps (build fuel p).c endMarker ops ⟨(build fuel p).s, none, none⟩).1) = _
+  rw [h, specPeekOpsF_eq]
+
+example : (runCase 8 (.src (.gen 0 [Val.int 1, Val.int 2, Val.int 3]))
+      (.peekOps [.peek, .peekBack, .next, .back, .next, .next, .next])).1
+    = .ok (.list [Val.int 1, endMarker, Val.int 1, endMarker, Val.int 2, Val.int 3, endMarker]) :=
+  peek_ops_forward_only 8 (.src (.gen 0 [Val.int 1, Val.int 2, Val.int 3]))
+    [Val.int 1, Val.int 2, Val.int 3] rfl rfl rfl trivial rfl _
+
+/-- **peek_back_forward_only_harmless.** Over a forward-only pipeline, after *any* interleaving of
+`peek`, `peek_back` and `next_back`, every later sequence of operations — in particular a forward
+drain by `n` `next` calls — answers exactly as on the untouched sequence `den p`: no element is lost,
+duplicated or moved. -/
+theorem peek_back_forward_only_harmless (fuel : Nat) (p : Pipe) (xs : List Val)
+    (hreg : p.regular = true) (herr : p.err = none) (hden : den p = some xs) (hfit : p.fits fuel)
+    (hbi : p.bidir = false) (ops rest : List PeekOp) (hn : ∀ o ∈ ops, o ≠ PeekOp.next) :
+    (runCase fuel p (.peekOps (ops ++ rest))).1 =
+      .ok (.list (specPeekOpsF ops xs ++ specPeekOpsF rest xs)) := by
+  rw [peek_ops_forward_only fuel p xs hreg herr hden hfit hbi, specPeekOpsF_append ops rest xs hn]
+
+/-- the former witness of F-C13-4: generator `a, b, c`; `peek, peek_back`, then drain -/
+example (a b c : Val) :
+    (runPeekOps (genCo 0 [a, b, c]) endMarker [.peek, .peekBack, .next, .next, .next, .next]
+      ⟨(0, false), none, none⟩).1 = [a, endMarker, a, b, c, endMarker] := rfl
 
 /-- **cycle_take.** Over a pipeline that yields the non-empty `ys`, `cycle` yields
 `ys[0], …, ys[len-1], ys[0], …` endlessly: its first `n` outputs are `ys[t % len]` for `t < n`
